@@ -35,6 +35,7 @@ type xformWitness struct {
 	Status  string      `json:"status"`
 	GotLen  uint64      `json:"got_len"`
 	Detail  string      `json:"detail"`
+	DstStep int         `json:"dst_step,omitempty"` // streaming decode: capacity of every destination buffer
 }
 
 // refDec decodes with the Go reference decoders (self-check of the reference side); readers are reused.
@@ -136,6 +137,13 @@ func vacuity(l *local, c *fam.Case) {
 	l.h("deflate_max_code_length", fmt.Sprint(st.MaxCodeLen))
 }
 
+func sizeClass(n int) string {
+	if n&(n-1) == 0 {
+		return "2^k"
+	}
+	return "not 2^k"
+}
+
 func few(n int) string {
 	switch {
 	case n == 0:
@@ -174,16 +182,20 @@ func (e *env) codecJobs(variant string, width int, units []unit, pick func(i int
 		i := k
 		var gen func() drv.Job
 		ref := &refDec{}
-		var mkJob func(c fam.Case, data, want []byte, part string) drv.Job
-		mkJob = func(c fam.Case, data, want []byte, part string) drv.Job {
-			return &drv.XformJob{Spec: drv.Spec{Pkg: c.Pkg, Quirks: c.Quirks, Data: data}, Ample: uint32(len(want) + 4096), OutMode: drv.OutBytes,
+		var mkJob func(c fam.Case, data, want []byte, part string, sc drv.Script) drv.Job
+		mkJob = func(c fam.Case, data, want []byte, part string, sc drv.Script) drv.Job {
+			if sc.DstStep > 0 {
+				part = fmt.Sprintf(":streaming(dst buffers of %s)", sizeClass(sc.DstStep))
+			}
+			return &drv.XformJob{Spec: drv.Spec{Pkg: c.Pkg, Quirks: c.Quirks, Data: data}, Script: sc, Ample: uint32(len(want) + 4096), OutMode: drv.OutBytes,
+				MaxCalls: 8*(len(data)+len(want)) + 4096,
 				Done: func(j *drv.XformJob) {
 					l.evals++
 					o := &j.Out
 					fail := func(clause, detail string) {
 						e.r.Violation(fmt.Sprintf("%s:%s:%s%s", c.Pkg, c.Class, clause, part), fmt.Sprintf("wuffs %s decoder on %s (%d bytes -> want %d bytes): %s", c.Pkg, c.Desc, len(data), len(want), detail),
 							xformWitness{Kind: "xform", Variant: variant, Pkg: c.Pkg, Quirks: c.Quirks, Desc: c.Desc, DataHex: hex.EncodeToString(clip(data, 1<<17)), WantHex: hex.EncodeToString(clip(want, 1<<12)), WantLen: len(want),
-								Status: o.Status, GotLen: o.OutLen, Detail: detail + " " + o.CrashLog})
+								Status: o.Status, GotLen: o.OutLen, Detail: detail + " " + o.CrashLog, DstStep: sc.DstStep})
 					}
 					switch {
 					case o.Crash != "":
@@ -203,7 +215,7 @@ func (e *env) codecJobs(variant string, width int, units []unit, pick func(i int
 							return
 						}
 						l.h("outcomes", c.Family+":first-member-ok")
-						queue = append(queue, mkJob(c, data[n:], want[len(o.Out):], ":member2"))
+						queue = append(queue, mkJob(c, data[n:], want[len(o.Out):], ":member2", drv.Script{}))
 						return
 					}
 					if d := firstDiff(o.Out, want); d >= 0 {
@@ -212,6 +224,22 @@ func (e *env) codecJobs(variant string, width int, units []unit, pick func(i int
 					}
 					if o.Spurious > 0 {
 						l.cnt["spurious_short_read_on_closed_source(C03)"]++
+					}
+					if sc.DstStep > 0 {
+						l.h("outcomes", c.Family+":streaming-ok")
+						l.h("streaming_decodes_by_buffer_size", fmt.Sprint(sc.DstStep))
+						if o.Susp[1] > 0 {
+							l.cnt["streaming_decodes_with_short_write_resume"]++
+						}
+						return
+					}
+					// payloads above 4 KiB are decoded again as a stream: uniform destination buffers smaller than the output
+					if len(want) > 4096 && part == "" && c.Family != "gzip2" {
+						for _, sz := range drv.UniformDstSizes {
+							if sz < len(want) && (variant == cserve.Plain || sz == 300 || sz == 4096) {
+								queue = append(queue, mkJob(c, data, want, "", drv.Script{DstStep: sz}))
+							}
+						}
 					}
 					l.h("outcomes", c.Family+":ok")
 					l.h("calls_per_decode", fmt.Sprint(min(o.Calls, 5)))
@@ -286,7 +314,7 @@ func (e *env) codecJobs(variant string, width int, units []unit, pick func(i int
 						vacuity(l, &c)
 						l.h("families", c.Family)
 					}
-					queue = append(queue, mkJob(c, c.Data, c.Want, ""))
+					queue = append(queue, mkJob(c, c.Data, c.Want, "", drv.Script{}))
 				}
 			}
 		}
